@@ -4,6 +4,7 @@ import json
 import xml.etree.ElementTree as ET
 
 from harness import common
+from harness.common import bud
 
 PROP = "C03"
 MODULES = ["CassisModel.Properties.C03", "CassisModel.Properties.C03Doc"]
@@ -106,7 +107,7 @@ def run_converter(ctx, out, budget):
     out.exhaustive_scope = f"all strings of length <= {maxlen} over {len(ALPHABET)} symbols (ASCII, 2/3-byte BMP, U+FFFD, U+10000, U+10FFFF, emoji, combining mark) x all internal offsets -1..len+2 x all external offsets -1..utf16len+2"
     rng = ctx.rng(0)
     # histories: the text is replaced (also by None) before converting
-    nh = 150 if budget == "quick" else 8000
+    nh = bud(budget, 150, 8000)
     for _ in range(nh):
         h = []
         for _ in range(rng.randint(1, 4)):
@@ -116,7 +117,7 @@ def run_converter(ctx, out, budget):
                 h.append("".join(rng.choice(ALPHABET) for _ in range(rng.randint(0, 8))))
         cases.append(h)
     # long random strings
-    nl = 10 if budget == "quick" else 320
+    nl = bud(budget, 10, 320)
     for _ in range(nl):
         L = rng.choice([50, 200, 2000])
         cases.append(["".join(rng.choice(ALPHABET + ["b", "c", " "]) for _ in range(L))])
@@ -314,7 +315,7 @@ def check_doc_case(case, out, k=0):
 
 def run_documents(ctx, out, budget):
     rng = ctx.rng(7)
-    n = 120 if budget == "quick" else 6000
+    n = bud(budget, 120, 6000)
     for k in range(n):
         case = doc_case(rng)
         check_doc_case(case, out, k)
